@@ -1,6 +1,29 @@
-(* Ops/C04.v — protocol entry points for property C04 (stub until the model is built). *)
-From Coq Require Import List String.
-From PrefVerif Require Import Lib.Val.
+(* Ops/C04.v — protocol entry points for property C04 (single-crossing). *)
+From Coq Require Import List NArith String.
+From PrefVerif Require Import Lib.Val Model.SC.
 Import ListNotations.
+Open Scope string_scope.
 
-Definition ops : optable := [].
+Definition d_order (v : val) : list N := dlist dN v.
+Definition d_orders (v : val) : list (list N) := dlist d_order v.
+
+(* c04.decide (alts orders) -> bool : brute-force reference (n <= 7) *)
+Definition op_decide (v : val) : val :=
+  ebool (sc_decide (d_order (dnth 0 v)) (d_orders (dnth 1 v))).
+(* c04.cdecide (alts orders) -> bool : polynomial reference (nested conflict sets) *)
+Definition op_cdecide (v : val) : val :=
+  ebool (sc_conflict_decide (d_order (dnth 0 v)) (d_orders (dnth 1 v))).
+(* c04.check (alts orders sequence) -> bool : verified witness checker *)
+Definition op_check (v : val) : val :=
+  ebool (sc_witness_check (d_order (dnth 0 v)) (d_orders (dnth 1 v)) (d_orders (dnth 2 v))).
+(* c04.seqcheck (alts sequence) -> bool *)
+Definition op_seqcheck (v : val) : val :=
+  ebool (sc_seq_check (d_order (dnth 0 v)) (d_orders (dnth 1 v))).
+(* c04.core (alts orders S mask) -> bool : true = refuted by the embedded core (hence not SC) *)
+Definition op_core (v : val) : val :=
+  ebool (sc_core_refutes (d_order (dnth 0 v)) (d_orders (dnth 1 v)) (d_order (dnth 2 v))
+                         (dlist dbool (dnth 3 v))).
+
+Definition ops : optable :=
+  [ ("c04.decide", op_decide); ("c04.cdecide", op_cdecide); ("c04.check", op_check);
+    ("c04.seqcheck", op_seqcheck); ("c04.core", op_core) ].
